@@ -10,8 +10,8 @@ DUP_WEIGHTS = {"we": 25, "ws": 8, "mv": 20, "sv": 3, "rs": 3, "er": 8, "hc": 5, 
 class Prop(PropBase):
     ID = "C13"
     LEAN_MODULES = ["Tpp.Props.C13"]
-    REQUIRED = ["Tpp.Props.C13." + n for n in ("C13_element", "C13_string_run", "C13_move", "C13_visibility", "C13_after_erase")] + \
-               ["Tpp.agree_run"]
+    REQUIRED = ["Tpp.Props.C13." + n for n in ("C13_element", "C13_string_run", "C13_move", "C13_visibility", "C13_after_erase", "C13_status_query")] + \
+               ["Tpp.agree_run", "Tpp.feed_statusQuery"]
     RULE = ("exhaustive short histories: EVERY sequence of up to 3 (thorough: 4) operations over an 18-operation alphabet on a 3x2 terminal (termgen.short_histories); exhaustive: every attribute of a 24-effect x 3 x 3 colour alphabet and every character set written twice in a "
             "row (and once more after an erase when default); every position of a 4x3 grid moved to twice; every visibility "
             "request repeated; random histories in which 40% of the operations repeat their predecessor. The oracle "
